@@ -1,20 +1,46 @@
 package main
 
 // Translator "effects": a per-function effect summary of every package of the repository,
-// written to Effects.v (C19).  For each function or method (function literals are merged into
-// the function that contains them):
+// written to Effects.v (C19).  For each function or method (function literals are analysed as
+// part of the function that contains them):
 //
-//   gwrites  package-level variables it assigns (directly, or an element/field of them)
+//   gwrites  package-level variables it assigns (directly, an element/field of them, or through
+//            a local alias of one)
 //   swrites  named types T such that it writes *through* a receiver, parameter or an alias of
 //            one whose type is T, *T, []T ... (a write that other holders of the value can see:
 //            through a pointer, a slice element or a map); unnamed roots are reported by their
 //            type string.  A field assignment on a by-value struct copy is not shared.
 //   calls    statically resolved callees inside the repository; a call through an interface
-//            is expanded to every method of that name declared in the repository
+//            declared in the repository is expanded to every method of that name declared in
+//            the repository whose receiver implements the interface
+//   scalls   the subset of calls that pass on a possibly shared value
 //   gostmts / chanops   number of go statements / channel operations (send, receive, close,
 //            select, range over a channel)
+//   dwrites  the *roots* it writes through directly: "recv", "p<i>" (i-th parameter),
+//            "g:<pkg>.<var>" (package-level variable), "lit" (a parameter of a function literal
+//            that is handed to someone else), "dyn" (a value returned by a callback), "chan"
+//            (a value received from a channel).  A call of a function outside the repository,
+//            of a method of an interface declared outside the repository, or of a function
+//            value (callback) counts as a write through every reference-typed argument, unless
+//            the callee is in the table of known read-only library functions below.
+//   argflow  (callee, callee root, caller root): at some call of callee, the callee's receiver
+//            / i-th parameter may alias the caller's root.  The transitive "may write through"
+//            relation is computed and proved closed in Coq (Effects/Flow.v).
+//   extwrites  library functions / callbacks that were counted as writes (diagnosis only)
+//   dyncalls   callbacks (function-typed parameters, fields, variables) it calls
+//   unknown    constructs the analysis does not understand: method values and method
+//            expressions, reflect, unsafe, cgo, go:linkname, bodiless functions, assignments
+//            whose target cannot be rooted, goto-style control in channel skeletons is handled
+//            separately.  Every theorem of C19 requires unknown = [] for the functions it
+//            speaks about: unknown is never treated as pure.
 //
-// The summary is syntactic + go/types; it is part of the trusted base (DESIGN.md section 7).
+// Besides the table, for every function with a channel-typed parameter a skeleton of its body
+// (chanskels) over close / send / receive / return / break / continue / if / loop is emitted;
+// Effects/Chan.v proves from it that the channel is closed exactly once on every path.
+//
+// The summary is syntactic + go/types, flow-insensitive, and tracks aliases through local
+// variables only (a value stored into a field of a receiver is from then on considered owned by
+// that receiver).  It is part of the trusted base (DESIGN.md section 7).
 
 import (
 	"fmt"
@@ -33,15 +59,25 @@ import (
 func init() { translators["effects"] = effectsTranslator }
 
 type finfo struct {
-	key      string
-	exported bool
-	gwrites  map[string]bool
-	swrites  map[string]bool
-	calls    map[string]bool
-	scalls   map[string]bool // calls whose receiver or some reference-typed argument may alias a shared value
-	ifcalls  map[string]bool
-	gostmts  int
-	chanops  int
+	key       string
+	exported  bool
+	gwrites   map[string]bool
+	swrites   map[string]bool
+	calls     map[string]bool
+	scalls    map[string]bool
+	gostmts   int
+	chanops   int
+	dwrites   map[string]bool
+	argflow   map[[3]string]bool
+	extwrites map[string]bool
+	dyncalls  map[string]bool
+	unknown   map[string]bool
+}
+
+func newFinfo(key string, exported bool) *finfo {
+	return &finfo{key: key, exported: exported, gwrites: map[string]bool{}, swrites: map[string]bool{}, calls: map[string]bool{},
+		scalls: map[string]bool{}, dwrites: map[string]bool{}, argflow: map[[3]string]bool{}, extwrites: map[string]bool{},
+		dyncalls: map[string]bool{}, unknown: map[string]bool{}}
 }
 
 type repoImporter struct {
@@ -53,6 +89,7 @@ type repoImporter struct {
 	files   map[string][]*ast.File
 	std     types.Importer
 	loading map[string]bool
+	errs    []string
 }
 
 func (ri *repoImporter) Import(path string) (*types.Package, error) {
@@ -78,7 +115,14 @@ func (ri *repoImporter) load(path string) (*types.Package, error) {
 	var files []*ast.File
 	for _, e := range ents {
 		n := e.Name()
-		if e.IsDir() || !strings.HasSuffix(n, ".go") || strings.HasSuffix(n, "_test.go") {
+		if e.IsDir() || strings.HasSuffix(n, "_test.go") {
+			continue
+		}
+		if !strings.HasSuffix(n, ".go") {
+			switch filepath.Ext(n) {
+			case ".s", ".S", ".c", ".h", ".cc", ".cpp", ".syso":
+				ri.errs = append(ri.errs, "non-Go source "+filepath.Join(dir, n))
+			}
 			continue
 		}
 		full := filepath.Join(dir, n)
@@ -96,9 +140,10 @@ func (ri *repoImporter) load(path string) (*types.Package, error) {
 		Types:      map[ast.Expr]types.TypeAndValue{},
 		Defs:       map[*ast.Ident]types.Object{},
 		Uses:       map[*ast.Ident]types.Object{},
+		Implicits:  map[ast.Node]types.Object{},
 		Selections: map[*ast.SelectorExpr]*types.Selection{},
 	}
-	conf := types.Config{Importer: ri, Error: func(error) {}}
+	conf := types.Config{Importer: ri, FakeImportC: true, Error: func(e error) { ri.errs = append(ri.errs, e.Error()) }}
 	pkg, err := conf.Check(path, ri.fset, files, info)
 	if pkg == nil {
 		return nil, err
@@ -143,6 +188,9 @@ func funcKey(fn *types.Func) string {
 
 // sharedTypeName names the type through which a write is visible to other holders.
 func sharedTypeName(t types.Type) string {
+	if t == nil {
+		return "?"
+	}
 	for {
 		switch u := t.(type) {
 		case *types.Pointer:
@@ -165,84 +213,114 @@ func sharedTypeName(t types.Type) string {
 	return t.String()
 }
 
-func isRefType(t types.Type) bool {
+func isRefType(t types.Type) bool { return isRefTypeD(t, 0) }
+
+func isRefTypeD(t types.Type, d int) bool {
+	if t == nil || d > 8 {
+		return true
+	}
 	switch u := t.Underlying().(type) {
 	case *types.Pointer, *types.Slice, *types.Map, *types.Chan, *types.Interface, *types.Signature:
 		return true
 	case *types.Struct:
 		for i := 0; i < u.NumFields(); i++ {
-			if isRefType(u.Field(i).Type()) {
+			if isRefTypeD(u.Field(i).Type(), d+1) {
 				return true
 			}
 		}
+		return false
 	case *types.Array:
-		return isRefType(u.Elem())
+		return isRefTypeD(u.Elem(), d+1)
+	case *types.Basic:
+		return u.Kind() == types.UnsafePointer
+	case *types.Tuple:
+		for i := 0; i < u.Len(); i++ {
+			if isRefTypeD(u.At(i).Type(), d+1) {
+				return true
+			}
+		}
+		return false
 	}
-	return false
+	return true // type parameters and anything new: assume it may hold references
 }
 
-// retAlias[f] = may a result of f alias its receiver or a reference-typed argument?  Computed
-// to a fixpoint over the repository; functions outside the repository are assumed to.
-var retAlias = map[string]bool{}
-
-type analyser struct {
-	rets   bool // some return expression is tainted
-	info   *types.Info
-	pkg    *types.Package
-	mod    string
-	taint  map[types.Object]types.Type // local variable -> type of the shared value it may alias
-	holder map[types.Object]bool       // local container that merely holds shared references
-	fi     *finfo
+// Library functions that only read through their reference-typed arguments (and whose result
+// does not let the caller write: it may still alias, which is handled separately).  Everything
+// else outside the repository is counted as writing through every reference-typed argument.
+// "pkg.Func" for functions, "pkg.Type.Method" for methods; a trailing "@k" restricts the
+// write to argument k (the others are only read).
+var extReadOnly = map[string]bool{
+	"fmt.Sprint": true, "fmt.Sprintf": true, "fmt.Sprintln": true, "fmt.Errorf": true,
+	"sort.Search": true, "sort.SearchInts": true, "sort.IntsAreSorted": true,
+	"bytes.Equal": true, "bytes.Compare": true, "bytes.HasPrefix": true, "bytes.IndexByte": true,
+	"errors.New": true, "strings.Join": true,
+	"encoding/binary.Uvarint": true, "encoding/binary.Varint": true,
+}
+var extWritesOnly = map[string]int{ // only this argument (0-based, receiver = -1) is written
+	"fmt.Fprint": 0, "fmt.Fprintf": 0, "fmt.Fprintln": 0, "io.WriteString": 0,
+	"encoding/binary.PutUvarint": 0, "encoding/binary.PutVarint": 0,
+	"sort.Ints": 0, "sort.Slice": 0, "sort.SliceStable": 0, "sort.Sort": 0, "sort.Stable": 0,
+	"io.ReadFull": -2, // both: reader state and buffer
 }
 
-// root walks to the base identifier of an lvalue or expression and says whether the path
-// goes through a pointer dereference, a slice/map element or an implicit pointer field access.
-func (a *analyser) root(e ast.Expr) (id *ast.Ident, through bool) {
-	id, d := a.rootDepth(e)
-	return id, d > 0
+// retRoots[f] = the callee roots ("recv", "p<i>") and foreign roots ("g:...", "dyn", ...) a
+// result of f may alias.  Computed to a fixpoint over the repository; functions outside the
+// repository are assumed to return an alias of every argument.
+var retRoots = map[string]map[string]bool{}
+
+type tinfo struct {
+	roots map[string]types.Type // root -> type of the shared value it names
+	own   int                   // number of dereference steps that stay inside storage owned by the local variable
 }
 
-// rootDepth also counts the dereference steps (pointer, slice/map element) on the path.
-func (a *analyser) rootDepth(e ast.Expr) (id *ast.Ident, depth int) {
-	through := false
-	_ = through
-	for {
-		switch x := e.(type) {
-		case *ast.ParenExpr:
-			e = x.X
-		case *ast.StarExpr:
-			depth++
-			e = x.X
-		case *ast.IndexExpr:
-			if tv, ok := a.info.Types[x.X]; ok {
-				switch tv.Type.Underlying().(type) {
-				case *types.Slice, *types.Map, *types.Pointer:
-					depth++
-				}
-			}
-			e = x.X
-		case *ast.SliceExpr:
-			e = x.X
-		case *ast.SelectorExpr:
-			if tv, ok := a.info.Types[x.X]; ok {
-				if _, ok := tv.Type.Underlying().(*types.Pointer); ok {
-					depth++
-				}
-			}
-			if id, ok := x.X.(*ast.Ident); ok {
-				if _, isPkg := a.info.Uses[id].(*types.PkgName); isPkg {
-					return x.Sel, depth
-				}
-			}
-			e = x.X
-		case *ast.Ident:
-			return x, depth
-		case *ast.CallExpr, *ast.TypeAssertExpr:
-			return nil, depth
-		default:
-			return nil, depth
+func (t *tinfo) clone() *tinfo {
+	c := &tinfo{roots: map[string]types.Type{}, own: t.own}
+	for k, v := range t.roots {
+		c.roots[k] = v
+	}
+	return c
+}
+
+// merge adds u's roots to t; returns whether anything changed.
+func (t *tinfo) merge(u *tinfo, takeOwn bool) bool {
+	ch := false
+	for k, v := range u.roots {
+		if _, ok := t.roots[k]; !ok {
+			t.roots[k] = v
+			ch = true
 		}
 	}
+	if takeOwn && u.own < t.own {
+		t.own = u.own
+		ch = true
+	}
+	return ch
+}
+
+type analyser struct {
+	info      *types.Info
+	pkg       *types.Package
+	mod       string
+	fset      *token.FileSet
+	taint     map[types.Object]*tinfo
+	fi        *finfo
+	ret       map[string]bool
+	results   []types.Object        // named results
+	litVar    map[types.Object]*ast.FuncLit // local variable bound (only) to function literals
+	litEsc    map[types.Object]bool // ... and used other than by calling it
+	litOfVar  map[*ast.FuncLit]types.Object
+	changed   bool
+	impl      map[string][]*types.Func // method name -> repository methods
+	callFun   map[ast.Expr]bool     // expressions in call position
+	recording bool
+}
+
+func (a *analyser) unknown(pos token.Pos, format string, args ...interface{}) {
+	if !a.recording {
+		return
+	}
+	p := a.fset.Position(pos)
+	a.fi.unknown[fmt.Sprintf(format, args...)+fmt.Sprintf(" (%s:%d)", filepath.Base(p.Filename), p.Line)] = true
 }
 
 func (a *analyser) isPkgLevel(obj types.Object) bool {
@@ -253,181 +331,517 @@ func (a *analyser) isPkgLevel(obj types.Object) bool {
 	return v.Parent() == v.Pkg().Scope()
 }
 
-func (a *analyser) noteWrite(lhs ast.Expr) {
-	id, through := a.root(lhs)
-	if id == nil {
-		return
-	}
-	obj := a.info.Uses[id]
-	if obj == nil {
-		obj = a.info.Defs[id]
-	}
-	if obj == nil {
-		return
-	}
-	if a.isPkgLevel(obj) {
-		a.fi.gwrites[obj.Pkg().Name()+"."+obj.Name()] = true
-		return
-	}
-	if t, ok := a.taint[obj]; ok && through {
-		if a.holder[obj] {
-			if _, d := a.rootDepth(lhs); d < 2 {
-				return // an element of the local container itself
-			}
-		}
-		a.fi.swrites[sharedTypeName(t)] = true
-	}
+func (a *analyser) inRepo(p *types.Package) bool {
+	return p != nil && (p.Path() == a.mod || strings.HasPrefix(p.Path(), a.mod+"/"))
 }
 
-// exprTaint: does evaluating e yield a value that may alias a tainted (shared) value?
-func (a *analyser) exprTaint(e ast.Expr) (types.Type, bool) {
-	switch x := e.(type) {
-	case *ast.CompositeLit, *ast.BasicLit, *ast.FuncLit:
-		return nil, false
-	case *ast.UnaryExpr:
-		if x.Op == token.AND {
-			return a.exprTaint(x.X)
-		}
-		return nil, false
-	case *ast.CallExpr:
-		if id, ok := x.Fun.(*ast.Ident); ok {
-			if _, isB := a.info.Uses[id].(*types.Builtin); isB {
-				switch id.Name {
-				case "make", "new", "len", "cap", "copy":
-					return nil, false
-				case "append":
-					if len(x.Args) > 0 {
-						return a.exprTaint(x.Args[0])
-					}
-				}
-				return nil, false
-			}
-		}
-		if tv, ok := a.info.Types[x.Fun]; ok && tv.IsType() { // conversion
-			if len(x.Args) == 1 {
-				return a.exprTaint(x.Args[0])
-			}
-		}
-		// a call may return an alias of any tainted argument or receiver, unless the callee
-		// is a repository function known not to return one
-		if fn := a.callee(x); fn != nil && fn.Pkg() != nil && strings.HasPrefix(fn.Pkg().Path(), a.mod) {
-			if a.isIfaceCall(x) {
-				// interface call: fresh only if no method of that name in the repository returns an alias
-				any, found := false, false
-				for k, v := range retAlias {
-					if strings.HasSuffix(k, "."+fn.Name()) && strings.Count(k, ".") == 2 {
-						found = true
-						any = any || v
-					}
-				}
-				if found && !any {
-					return nil, false
-				}
-			} else if known, ok := retAlias[funcKey(fn)]; ok && !known {
-				return nil, false
-			}
-		}
-		var args []ast.Expr
-		args = append(args, x.Args...)
-		if s, ok := x.Fun.(*ast.SelectorExpr); ok {
-			args = append(args, s.X)
-		}
-		for _, arg := range args {
-			if t, ok := a.exprTaint(arg); ok {
-				return t, true
-			}
-		}
-		return nil, false
+func (a *analyser) typeOf(e ast.Expr) types.Type {
+	if tv, ok := a.info.Types[e]; ok {
+		return tv.Type
 	}
-	id, _ := a.root(e)
-	if id == nil {
-		return nil, false
-	}
-	obj := a.info.Uses[id]
-	if obj == nil {
-		return nil, false
-	}
-	if t, ok := a.taint[obj]; ok {
-		return t, true
-	}
-	return nil, false
-}
-
-func (a *analyser) callee(x *ast.CallExpr) *types.Func {
-	switch f := x.Fun.(type) {
-	case *ast.Ident:
-		if fn, ok := a.info.Uses[f].(*types.Func); ok {
-			return fn
-		}
-	case *ast.SelectorExpr:
-		if sel, ok := a.info.Selections[f]; ok {
-			if fn, ok := sel.Obj().(*types.Func); ok {
-				return fn
-			}
-		} else if fn, ok := a.info.Uses[f.Sel].(*types.Func); ok {
-			return fn
+	if id, ok := e.(*ast.Ident); ok {
+		if o := a.obj(id); o != nil {
+			return o.Type()
 		}
 	}
 	return nil
 }
 
-func (a *analyser) isIfaceCall(x *ast.CallExpr) bool {
-	if f, ok := x.Fun.(*ast.SelectorExpr); ok {
-		if sel, ok := a.info.Selections[f]; ok {
-			_, isIface := sel.Recv().Underlying().(*types.Interface)
-			return isIface
+func (a *analyser) obj(id *ast.Ident) types.Object {
+	if o := a.info.Uses[id]; o != nil {
+		return o
+	}
+	return a.info.Defs[id]
+}
+
+// splitPath walks an lvalue or value path to its base expression, counting the dereference
+// steps (pointer, slice/map element, field through a pointer) on the way.
+func (a *analyser) splitPath(e ast.Expr) (base ast.Expr, depth int) {
+	for {
+		switch x := e.(type) {
+		case *ast.ParenExpr:
+			e = x.X
+		case *ast.StarExpr:
+			depth++
+			e = x.X
+		case *ast.IndexExpr:
+			t := a.typeOf(x.X)
+			if t == nil {
+				return e, depth
+			}
+			switch t.Underlying().(type) {
+			case *types.Slice, *types.Map, *types.Pointer:
+				depth++
+			case *types.Array, *types.Basic:
+			default:
+				return e, depth // generic instantiation or unknown
+			}
+			e = x.X
+		case *ast.SliceExpr:
+			if t := a.typeOf(x.X); t != nil {
+				if _, ok := t.Underlying().(*types.Pointer); ok {
+					depth++
+				}
+			}
+			e = x.X
+		case *ast.SelectorExpr:
+			if id, ok := x.X.(*ast.Ident); ok {
+				if _, isPkg := a.info.Uses[id].(*types.PkgName); isPkg {
+					return x.Sel, depth
+				}
+			}
+			sel, ok := a.info.Selections[x]
+			if !ok || sel.Kind() != types.FieldVal {
+				return e, depth
+			}
+			if sel.Indirect() {
+				depth++
+			}
+			e = x.X
+		case *ast.TypeAssertExpr:
+			e = x.X
+		default:
+			return e, depth
 		}
 	}
-	return false
+}
+
+func (a *analyser) globalName(obj types.Object) string { return obj.Pkg().Name() + "." + obj.Name() }
+
+// baseTaint gives the taint of a path base.
+func (a *analyser) baseTaint(base ast.Expr) *tinfo {
+	switch b := base.(type) {
+	case *ast.Ident:
+		obj := a.obj(b)
+		if obj == nil {
+			return nil
+		}
+		if a.isPkgLevel(obj) {
+			return &tinfo{roots: map[string]types.Type{"g:" + a.globalName(obj): obj.Type()}, own: -1}
+		}
+		if t, ok := a.taint[obj]; ok {
+			return t
+		}
+		return nil
+	case *ast.CallExpr:
+		return a.callResultTaint(b)
+	case *ast.CompositeLit:
+		return a.exprTaint(b)
+	case *ast.BasicLit, *ast.FuncLit:
+		return nil
+	case *ast.SelectorExpr:
+		// method value or qualified function: no data
+		return nil
+	case *ast.UnaryExpr, *ast.BinaryExpr:
+		return a.exprTaint(b)
+	}
+	return nil
+}
+
+func (a *analyser) pathTaint(e ast.Expr, addr bool) *tinfo {
+	base, depth := a.splitPath(e)
+	tb := a.baseTaint(base)
+	if tb == nil || len(tb.roots) == 0 {
+		return nil
+	}
+	r := tb.clone()
+	if depth > tb.own {
+		r.own = 0
+	} else {
+		r.own = tb.own - depth
+		if addr {
+			r.own++
+		}
+	}
+	return r
+}
+
+// exprTaint: the shared roots the value of e may alias (nil = a fresh or plain value).
+func (a *analyser) exprTaint(e ast.Expr) *tinfo {
+	switch x := e.(type) {
+	case nil:
+		return nil
+	case *ast.BasicLit, *ast.FuncLit:
+		return nil
+	case *ast.CompositeLit:
+		var r *tinfo
+		for _, el := range x.Elts {
+			v := el
+			if kv, ok := el.(*ast.KeyValueExpr); ok {
+				v = kv.Value
+			}
+			if t := a.typeOf(v); t != nil && !isRefType(t) {
+				continue
+			}
+			if tv := a.exprTaint(v); tv != nil {
+				if r == nil {
+					r = &tinfo{roots: map[string]types.Type{}, own: 0}
+				}
+				r.merge(tv, false)
+			}
+		}
+		return r
+	case *ast.KeyValueExpr:
+		return a.exprTaint(x.Value)
+	case *ast.ParenExpr:
+		return a.exprTaint(x.X)
+	case *ast.UnaryExpr:
+		switch x.Op {
+		case token.AND:
+			if cl, ok := x.X.(*ast.CompositeLit); ok {
+				if r := a.exprTaint(cl); r != nil {
+					r.own = 1
+					return r
+				}
+				return nil
+			}
+			return a.pathTaint(x.X, true)
+		case token.ARROW:
+			return &tinfo{roots: map[string]types.Type{"chan": a.typeOf(e)}, own: 0}
+		}
+		return nil
+	case *ast.BinaryExpr:
+		return nil
+	case *ast.CallExpr:
+		return a.callResultTaint(x)
+	}
+	return a.pathTaint(e, false)
+}
+
+type callKind int
+
+const (
+	ckBuiltin callKind = iota
+	ckConversion
+	ckRepo      // statically resolved function or method of the repository
+	ckRepoIface // method of an interface declared in the repository
+	ckExternal  // function / method / interface method outside the repository
+	ckLocalLit  // call of a local variable bound only to function literals, or of a literal
+	ckDynamic   // any other function value
+)
+
+type callInfo struct {
+	kind    callKind
+	name    string        // builtin name, repository key, external name, or expression text
+	targets []*types.Func // ckRepo: one; ckRepoIface: the implementers
+	recv    ast.Expr      // receiver expression of a method call
+	sig     *types.Signature
+	lit     *ast.FuncLit
+}
+
+func exprText(e ast.Expr) string {
+	switch x := e.(type) {
+	case *ast.Ident:
+		return x.Name
+	case *ast.SelectorExpr:
+		return exprText(x.X) + "." + x.Sel.Name
+	case *ast.ParenExpr:
+		return exprText(x.X)
+	case *ast.CallExpr:
+		return exprText(x.Fun) + "()"
+	case *ast.IndexExpr:
+		return exprText(x.X) + "[]"
+	case *ast.FuncLit:
+		return "func literal"
+	}
+	return fmt.Sprintf("%T", e)
+}
+
+func extName(fn *types.Func) string {
+	pkg := ""
+	if fn.Pkg() != nil {
+		pkg = fn.Pkg().Path()
+	}
+	sig := fn.Type().(*types.Signature)
+	if r := sig.Recv(); r != nil {
+		t := r.Type()
+		if p, ok := t.(*types.Pointer); ok {
+			t = p.Elem()
+		}
+		if n, ok := t.(*types.Named); ok {
+			return pkg + "." + n.Obj().Name() + "." + fn.Name()
+		}
+		return pkg + ".?." + fn.Name()
+	}
+	return pkg + "." + fn.Name()
+}
+
+func (a *analyser) classify(x *ast.CallExpr) callInfo {
+	if tv, ok := a.info.Types[x.Fun]; ok && tv.IsType() {
+		return callInfo{kind: ckConversion}
+	}
+	fun := x.Fun
+	for {
+		if p, ok := fun.(*ast.ParenExpr); ok {
+			fun = p.X
+			continue
+		}
+		break
+	}
+	sigOf := func(e ast.Expr) *types.Signature {
+		if t := a.typeOf(e); t != nil {
+			if s, ok := t.Underlying().(*types.Signature); ok {
+				return s
+			}
+		}
+		return nil
+	}
+	switch f := fun.(type) {
+	case *ast.FuncLit:
+		return callInfo{kind: ckLocalLit, lit: f, name: "func literal", sig: sigOf(f)}
+	case *ast.Ident:
+		switch obj := a.info.Uses[f].(type) {
+		case *types.Builtin:
+			return callInfo{kind: ckBuiltin, name: f.Name}
+		case *types.Func:
+			if a.inRepo(obj.Pkg()) {
+				return callInfo{kind: ckRepo, name: funcKey(obj), targets: []*types.Func{obj}, sig: obj.Type().(*types.Signature)}
+			}
+			return callInfo{kind: ckExternal, name: extName(obj), sig: obj.Type().(*types.Signature)}
+		case *types.Var:
+			if lit, ok := a.litVar[obj]; ok && lit != nil {
+				return callInfo{kind: ckLocalLit, lit: lit, name: f.Name, sig: sigOf(f)}
+			}
+		}
+		return callInfo{kind: ckDynamic, name: exprText(fun), sig: sigOf(fun)}
+	case *ast.SelectorExpr:
+		if sel, ok := a.info.Selections[f]; ok {
+			fn, isFn := sel.Obj().(*types.Func)
+			if !isFn { // function-typed field
+				return callInfo{kind: ckDynamic, name: exprText(fun), sig: sigOf(fun)}
+			}
+			sig := fn.Type().(*types.Signature)
+			if iface, isIface := sel.Recv().Underlying().(*types.Interface); isIface {
+				declaredInRepo := false
+				if n, ok := sel.Recv().(*types.Named); ok {
+					declaredInRepo = a.inRepo(n.Obj().Pkg())
+				} else if fn.Pkg() != nil {
+					declaredInRepo = a.inRepo(fn.Pkg())
+				}
+				if !declaredInRepo {
+					return callInfo{kind: ckExternal, name: extName(fn), recv: f.X, sig: sig}
+				}
+				var ts []*types.Func
+				for _, m := range a.impl[fn.Name()] {
+					rt := m.Type().(*types.Signature).Recv().Type()
+					if types.Implements(rt, iface) {
+						ts = append(ts, m)
+					} else if _, isPtr := rt.(*types.Pointer); !isPtr && types.Implements(types.NewPointer(rt), iface) {
+						ts = append(ts, m)
+					}
+				}
+				return callInfo{kind: ckRepoIface, name: fn.Name(), targets: ts, recv: f.X, sig: sig}
+			}
+			if a.inRepo(fn.Pkg()) {
+				return callInfo{kind: ckRepo, name: funcKey(fn), targets: []*types.Func{fn}, recv: f.X, sig: sig}
+			}
+			return callInfo{kind: ckExternal, name: extName(fn), recv: f.X, sig: sig}
+		}
+		// qualified identifier pkg.F
+		switch obj := a.info.Uses[f.Sel].(type) {
+		case *types.Func:
+			if a.inRepo(obj.Pkg()) {
+				return callInfo{kind: ckRepo, name: funcKey(obj), targets: []*types.Func{obj}, sig: obj.Type().(*types.Signature)}
+			}
+			return callInfo{kind: ckExternal, name: extName(obj), sig: obj.Type().(*types.Signature)}
+		}
+		return callInfo{kind: ckDynamic, name: exprText(fun), sig: sigOf(fun)}
+	}
+	return callInfo{kind: ckDynamic, name: exprText(fun), sig: sigOf(fun)}
+}
+
+// argRoot names the callee root the i-th argument is bound to.
+func argRoot(sig *types.Signature, i int) string {
+	if sig != nil {
+		n := sig.Params().Len()
+		if sig.Variadic() && i >= n-1 {
+			i = n - 1
+		}
+	}
+	return fmt.Sprintf("p%d", i)
+}
+
+func (a *analyser) refArg(e ast.Expr) *tinfo {
+	if t := a.typeOf(e); t != nil && !isRefType(t) {
+		return nil
+	}
+	return a.exprTaint(e)
+}
+
+// recvTaint: taint of the receiver expression of a method call (a value receiver that holds
+// references, or a pointer receiver, possibly taken implicitly).
+func (a *analyser) recvTaint(ci callInfo) *tinfo {
+	if ci.recv == nil {
+		return nil
+	}
+	if t := a.typeOf(ci.recv); t != nil && !isRefType(t) {
+		// value without references, but a pointer-receiver method takes its address
+		return a.pathTaint(ci.recv, true)
+	}
+	return a.exprTaint(ci.recv)
+}
+
+func (a *analyser) callResultTaint(x *ast.CallExpr) *tinfo {
+	ci := a.classify(x)
+	union := func(ts ...*tinfo) *tinfo {
+		var r *tinfo
+		for _, t := range ts {
+			if t == nil {
+				continue
+			}
+			if r == nil {
+				r = &tinfo{roots: map[string]types.Type{}, own: 0}
+			}
+			r.merge(t, false)
+		}
+		return r
+	}
+	allArgs := func() *tinfo {
+		ts := []*tinfo{a.recvTaint(ci)}
+		for _, arg := range x.Args {
+			ts = append(ts, a.refArg(arg))
+		}
+		return union(ts...)
+	}
+	switch ci.kind {
+	case ckConversion:
+		if len(x.Args) == 1 {
+			return a.exprTaint(x.Args[0])
+		}
+		return nil
+	case ckBuiltin:
+		switch ci.name {
+		case "append":
+			if len(x.Args) == 0 {
+				return nil
+			}
+			base := a.exprTaint(x.Args[0])
+			var r *tinfo
+			if base != nil {
+				r = base.clone()
+			}
+			for _, arg := range x.Args[1:] {
+				if t := a.refArg(arg); t != nil {
+					if r == nil {
+						r = &tinfo{roots: map[string]types.Type{}, own: 1}
+					}
+					r.merge(t, false)
+				}
+			}
+			return r
+		case "min", "max":
+			return nil
+		}
+		return nil
+	case ckRepo, ckRepoIface:
+		var r *tinfo
+		for _, fn := range ci.targets {
+			for q := range retRoots[funcKey(fn)] {
+				var t *tinfo
+				switch {
+				case q == "recv":
+					t = a.recvTaint(ci)
+				case len(q) > 1 && q[0] == 'p' && q[1] >= '0' && q[1] <= '9':
+					for i, arg := range x.Args {
+						if argRoot(ci.sig, i) == q {
+							t = union(t, a.refArg(arg))
+						}
+					}
+				default:
+					t = &tinfo{roots: map[string]types.Type{q: a.typeOf(x)}, own: 0}
+				}
+				r = union(r, t)
+			}
+		}
+		return r
+	case ckExternal:
+		if t := a.typeOf(x); t != nil && !isRefType(t) {
+			return nil
+		}
+		return allArgs()
+	case ckLocalLit:
+		// the literal's body is analysed in place; its result may alias anything it can see
+		if t := a.typeOf(x); t != nil && !isRefType(t) {
+			return nil
+		}
+		r := allArgs()
+		for _, t := range a.taint {
+			r = union(r, t)
+		}
+		return r
+	case ckDynamic:
+		if t := a.typeOf(x); t != nil && !isRefType(t) {
+			return nil
+		}
+		return union(allArgs(), &tinfo{roots: map[string]types.Type{"dyn": a.typeOf(x)}, own: 0})
+	}
+	return nil
+}
+
+func (a *analyser) setTaint(obj types.Object, t *tinfo) {
+	if obj == nil || t == nil || len(t.roots) == 0 {
+		return
+	}
+	if old, ok := a.taint[obj]; ok {
+		if old.merge(t, true) {
+			a.changed = true
+		}
+		return
+	}
+	a.taint[obj] = t.clone()
+	a.changed = true
 }
 
 func (a *analyser) assign(lhs, rhs ast.Expr) {
-	if rhs == nil {
+	if rhs == nil || lhs == nil {
 		return
 	}
-	id, ok := lhs.(*ast.Ident)
-	if !ok {
-		// storing a shared value into an element or field of a local container makes the
-		// container an alias holder: ts[0] = t
-		rid, _ := a.root(lhs)
-		if rid == nil {
+	if t := a.typeOf(rhs); t != nil && !isRefType(t) {
+		return
+	}
+	if id, ok := lhs.(*ast.Ident); ok {
+		if id.Name == "_" {
 			return
 		}
-		obj := a.info.Uses[rid]
+		obj := a.obj(id)
 		if obj == nil || a.isPkgLevel(obj) {
 			return
 		}
-		if tv, ok := a.info.Types[rhs]; ok && isRefType(tv.Type) {
-			if t, ok := a.exprTaint(rhs); ok {
-				if _, already := a.taint[obj]; !already {
-					a.taint[obj] = t
-					a.holder[obj] = true
-				}
-			}
-		}
+		a.setTaint(obj, a.exprTaint(rhs))
 		return
 	}
-	obj := a.info.Defs[id]
-	if obj == nil {
-		obj = a.info.Uses[id]
+	// storing a shared value into an element or field of a local container makes the container a holder
+	base, _ := a.splitPath(lhs)
+	id, ok := base.(*ast.Ident)
+	if !ok {
+		return
 	}
+	obj := a.obj(id)
 	if obj == nil || a.isPkgLevel(obj) {
 		return
 	}
-	tv, ok := a.info.Types[rhs]
-	if !ok || !isRefType(tv.Type) {
+	t := a.exprTaint(rhs)
+	if t == nil {
 		return
 	}
-	if t, ok := a.exprTaint(rhs); ok {
-		if _, already := a.taint[obj]; !already {
-			a.taint[obj] = t
+	h := &tinfo{roots: t.roots, own: 0}
+	if _, already := a.taint[obj]; !already {
+		switch obj.Type().Underlying().(type) {
+		case *types.Pointer, *types.Slice, *types.Map:
+			h.own = 1
 		}
+		a.setTaint(obj, h)
+		return
+	}
+	if a.taint[obj].merge(h, false) {
+		a.changed = true
 	}
 }
 
-func (a *analyser) walk(body ast.Node) {
-	// two passes so that aliases introduced later in loops are seen
-	for pass := 0; pass < 2; pass++ {
+// collectAliases runs the flow-insensitive alias propagation to a fixpoint.
+func (a *analyser) collectAliases(body ast.Node) {
+	for pass := 0; pass < 12; pass++ {
+		a.changed = false
 		ast.Inspect(body, func(n ast.Node) bool {
 			switch x := n.(type) {
 			case *ast.AssignStmt:
@@ -441,19 +855,165 @@ func (a *analyser) walk(body ast.Node) {
 					}
 				}
 			case *ast.RangeStmt:
-				if x.Value != nil {
-					a.assign(x.Value, x.X)
+				// the value variable aliases an element of X
+				if x.Value != nil || x.Key != nil {
+					elem := &ast.IndexExpr{X: x.X, Index: &ast.BasicLit{Kind: token.INT, Value: "0"}}
+					var t *tinfo
+					if xt := a.typeOf(x.X); xt != nil {
+						switch u := xt.Underlying().(type) {
+						case *types.Slice, *types.Map:
+							if b := a.pathTaint(x.X, false); b != nil {
+								t = b.clone()
+								if t.own > 0 {
+									t.own--
+								} else {
+									t.own = 0
+								}
+							}
+						case *types.Pointer, *types.Array:
+							t = a.pathTaint(x.X, false)
+							if _, isP := u.(*types.Pointer); isP && t != nil {
+								t = t.clone()
+								if t.own > 0 {
+									t.own--
+								}
+							}
+						case *types.Chan:
+							t = &tinfo{roots: map[string]types.Type{"chan": u.Elem()}, own: 0}
+						default:
+							_ = elem
+						}
+					}
+					for _, v := range []ast.Expr{x.Key, x.Value} {
+						if id, ok := v.(*ast.Ident); ok && id.Name != "_" && t != nil {
+							if obj := a.obj(id); obj != nil && isRefType(obj.Type()) && !a.isPkgLevel(obj) {
+								a.setTaint(obj, t)
+							}
+						}
+					}
 				}
 			case *ast.ValueSpec:
 				for i, name := range x.Names {
 					if i < len(x.Values) {
 						a.assign(name, x.Values[i])
+					} else if len(x.Values) == 1 {
+						a.assign(name, x.Values[0])
+					}
+				}
+			case *ast.TypeSwitchStmt:
+				var src ast.Expr
+				switch s := x.Assign.(type) {
+				case *ast.AssignStmt:
+					if len(s.Rhs) == 1 {
+						if ta, ok := s.Rhs[0].(*ast.TypeAssertExpr); ok {
+							src = ta.X
+						}
+					}
+				}
+				if src != nil {
+					t := a.exprTaint(src)
+					for _, c := range x.Body.List {
+						if obj := a.info.Implicits[c]; obj != nil && t != nil && isRefType(obj.Type()) {
+							a.setTaint(obj, t)
+						}
+					}
+				}
+			case *ast.CallExpr:
+				// bind the arguments of a call of a local closure to the closure's parameters
+				ci := a.classify(x)
+				if ci.kind == ckLocalLit && ci.lit != nil {
+					i := 0
+					for _, fld := range ci.lit.Type.Params.List {
+						for _, nm := range fld.Names {
+							if i < len(x.Args) {
+								if obj := a.info.Defs[nm]; obj != nil && isRefType(obj.Type()) {
+									a.setTaint(obj, a.exprTaint(x.Args[i]))
+								}
+							}
+							i++
+						}
+					}
+				}
+			case *ast.ReturnStmt:
+				for _, r := range x.Results {
+					if t := a.refArg(r); t != nil {
+						for k := range t.roots {
+							if !a.ret[k] {
+								a.ret[k] = true
+							}
+						}
 					}
 				}
 			}
 			return true
 		})
+		if !a.changed {
+			break
+		}
 	}
+	for _, obj := range a.results {
+		if t, ok := a.taint[obj]; ok {
+			for k := range t.roots {
+				a.ret[k] = true
+			}
+		}
+	}
+}
+
+func (a *analyser) writeThrough(t *tinfo, label string) {
+	for r, ty := range t.roots {
+		a.fi.dwrites[r] = true
+		if strings.HasPrefix(r, "g:") {
+			a.fi.gwrites[strings.TrimPrefix(r, "g:")] = true
+			continue
+		}
+		a.fi.swrites[label+sharedTypeName(ty)] = true
+	}
+}
+
+// noteWrite records an assignment to the location lhs (extra = additional dereference steps,
+// e.g. 1 for "an element of lhs").
+func (a *analyser) noteWrite(lhs ast.Expr, extra int, label string) {
+	if id, ok := lhs.(*ast.Ident); ok && id.Name == "_" {
+		return
+	}
+	base, depth := a.splitPath(lhs)
+	depth += extra
+	switch b := base.(type) {
+	case *ast.Ident:
+		obj := a.obj(b)
+		if obj == nil {
+			a.unknown(lhs.Pos(), "assignment to unresolved identifier %s", b.Name)
+			return
+		}
+		if a.isPkgLevel(obj) {
+			a.fi.gwrites[a.globalName(obj)] = true
+			a.fi.dwrites["g:"+a.globalName(obj)] = true
+			return
+		}
+		if _, isVar := obj.(*types.Var); !isVar {
+			a.unknown(lhs.Pos(), "assignment to non-variable %s", b.Name)
+			return
+		}
+		if t, ok := a.taint[obj]; ok && depth > t.own {
+			a.writeThrough(t, label)
+		}
+	case *ast.CallExpr:
+		if t := a.callResultTaint(b); t != nil {
+			a.writeThrough(t, label)
+		}
+	case *ast.CompositeLit:
+		if t := a.exprTaint(b); t != nil && depth > 0 {
+			a.writeThrough(t, label)
+		}
+	default:
+		a.unknown(lhs.Pos(), "assignment whose target cannot be rooted (%T)", base)
+	}
+}
+
+func (a *analyser) walk(body ast.Node) {
+	a.collectAliases(body)
+	a.recording = true
 	ast.Inspect(body, func(n ast.Node) bool {
 		switch x := n.(type) {
 		case *ast.AssignStmt:
@@ -463,30 +1023,22 @@ func (a *analyser) walk(body ast.Node) {
 						continue
 					}
 				}
-				a.noteWrite(l)
+				a.noteWrite(l, 0, "")
 			}
 		case *ast.IncDecStmt:
-			a.noteWrite(x.X)
+			a.noteWrite(x.X, 0, "")
 		case *ast.RangeStmt:
 			if x.Tok == token.ASSIGN {
 				if x.Key != nil {
-					a.noteWrite(x.Key)
+					a.noteWrite(x.Key, 0, "")
 				}
 				if x.Value != nil {
-					a.noteWrite(x.Value)
+					a.noteWrite(x.Value, 0, "")
 				}
 			}
-			if tv, ok := a.info.Types[x.X]; ok {
-				if _, isChan := tv.Type.Underlying().(*types.Chan); isChan {
+			if t := a.typeOf(x.X); t != nil {
+				if _, isChan := t.Underlying().(*types.Chan); isChan {
 					a.fi.chanops++
-				}
-			}
-		case *ast.ReturnStmt:
-			for _, r := range x.Results {
-				if tv, ok := a.info.Types[r]; ok && isRefType(tv.Type) {
-					if _, t := a.exprTaint(r); t {
-						a.rets = true
-					}
 				}
 			}
 		case *ast.GoStmt:
@@ -501,103 +1053,408 @@ func (a *analyser) walk(body ast.Node) {
 			}
 		case *ast.CallExpr:
 			a.call(x)
+		case *ast.SelectorExpr:
+			a.selector(x)
+		case *ast.FuncLit:
+			// a literal that is not simply called locally may be invoked by anyone with any
+			// arguments: its reference-typed parameters name unknown storage ("lit")
 		}
 		return true
 	})
 }
 
-func (a *analyser) call(x *ast.CallExpr) {
-	shared := false
-	for _, arg := range x.Args {
-		if tv, ok := a.info.Types[arg]; ok && isRefType(tv.Type) {
-			if _, t := a.exprTaint(arg); t {
-				shared = true
+// selector flags method values, method expressions, reflect and unsafe.
+func (a *analyser) selector(x *ast.SelectorExpr) {
+	if id, ok := x.X.(*ast.Ident); ok {
+		if pn, isPkg := a.info.Uses[id].(*types.PkgName); isPkg {
+			switch pn.Imported().Path() {
+			case "reflect", "unsafe", "C":
+				a.unknown(x.Pos(), "use of %s.%s", pn.Imported().Path(), x.Sel.Name)
 			}
+			if fn, ok := a.info.Uses[x.Sel].(*types.Func); ok && !a.callFun[x] && a.inRepo(fn.Pkg()) {
+				// a repository function used as a value: whoever calls it is a dynamic call there
+				_ = fn
+			}
+			return
 		}
 	}
-	if s, ok := x.Fun.(*ast.SelectorExpr); ok {
-		if _, isSel := a.info.Selections[s]; isSel {
-			if _, t := a.exprTaint(s.X); t {
-				shared = true
+	if sel, ok := a.info.Selections[x]; ok {
+		switch sel.Kind() {
+		case types.MethodVal:
+			if !a.callFun[x] {
+				a.unknown(x.Pos(), "method value %s", exprText(x))
 			}
+		case types.MethodExpr:
+			a.unknown(x.Pos(), "method expression %s", exprText(x))
 		}
 	}
-	a.callInner(x, shared)
 }
 
-func (a *analyser) callInner(x *ast.CallExpr, shared bool) {
-	add := func(k string) {
-		a.fi.calls[k] = true
-		if shared {
-			a.fi.scalls[k] = true
+func (a *analyser) call(x *ast.CallExpr) {
+	ci := a.classify(x)
+	type boundArg struct {
+		root string
+		t    *tinfo
+	}
+	var bound []boundArg
+	if rt := a.recvTaint(ci); rt != nil {
+		bound = append(bound, boundArg{"recv", rt})
+	}
+	for i, arg := range x.Args {
+		if t := a.refArg(arg); t != nil {
+			bound = append(bound, boundArg{argRoot(ci.sig, i), t})
 		}
 	}
-	addIf := func(m string) {
-		a.fi.ifcalls[m] = true
-		if shared {
-			a.fi.ifcalls["shared:"+m] = true
-		}
-	}
-	switch f := x.Fun.(type) {
-	case *ast.Ident:
-		switch obj := a.info.Uses[f].(type) {
-		case *types.Builtin:
-			switch f.Name {
-			case "close":
-				a.fi.chanops++
-			case "copy":
-				if len(x.Args) > 0 {
-					// copy writes the elements of its first argument
-					a.noteWrite(&ast.IndexExpr{X: x.Args[0], Index: &ast.BasicLit{Kind: token.INT, Value: "0"}})
-					if id, _ := a.root(x.Args[0]); id != nil {
-						if obj := a.info.Uses[id]; obj != nil {
-							if a.isPkgLevel(obj) {
-								a.fi.gwrites[obj.Pkg().Name()+"."+obj.Name()] = true
-							} else if t, ok := a.taint[obj]; ok {
-								a.fi.swrites[sharedTypeName(t)] = true
-							}
-						}
-					}
-				}
-			case "append":
-				// append may write into the spare capacity of a shared backing array
-				if len(x.Args) > 0 {
-					if id, _ := a.root(x.Args[0]); id != nil {
-						if obj := a.info.Uses[id]; obj != nil {
-							if a.isPkgLevel(obj) {
-								a.fi.gwrites[obj.Pkg().Name()+"."+obj.Name()] = true
-							} else if t, ok := a.taint[obj]; ok && !a.holder[obj] {
-								a.fi.swrites["append:"+sharedTypeName(t)] = true
-							}
-						}
-					}
-				}
-			case "delete":
-				if len(x.Args) > 0 {
-					a.noteWrite(&ast.IndexExpr{X: x.Args[0], Index: &ast.BasicLit{Kind: token.INT, Value: "0"}})
-				}
+	shared := len(bound) > 0
+	switch ci.kind {
+	case ckConversion:
+		return
+	case ckBuiltin:
+		switch ci.name {
+		case "close":
+			a.fi.chanops++
+		case "copy", "delete", "clear":
+			if len(x.Args) > 0 {
+				a.noteWrite(x.Args[0], 1, "")
 			}
-		case *types.Func:
-			if obj.Pkg() != nil && strings.HasPrefix(obj.Pkg().Path(), a.mod) {
-				add(funcKey(obj))
+		case "append":
+			// append may write into the spare capacity of a shared backing array
+			if len(x.Args) > 0 {
+				a.noteWrite(x.Args[0], 1, "append:")
 			}
 		}
-	case *ast.SelectorExpr:
-		if sel, ok := a.info.Selections[f]; ok {
-			if fn, ok := sel.Obj().(*types.Func); ok {
-				if _, isIface := sel.Recv().Underlying().(*types.Interface); isIface {
-					addIf(fn.Name())
-				} else if fn.Pkg() != nil && strings.HasPrefix(fn.Pkg().Path(), a.mod) {
-					add(funcKey(fn))
+		return
+	case ckRepo, ckRepoIface:
+		for _, fn := range ci.targets {
+			k := funcKey(fn)
+			a.fi.calls[k] = true
+			if shared {
+				a.fi.scalls[k] = true
+			}
+			for _, b := range bound {
+				for r := range b.t.roots {
+					a.fi.argflow[[3]string{k, b.root, r}] = true
 				}
 			}
-		} else if fn, ok := a.info.Uses[f.Sel].(*types.Func); ok { // pkg.Func
-			if fn.Pkg() != nil && strings.HasPrefix(fn.Pkg().Path(), a.mod) {
-				add(funcKey(fn))
+		}
+		if ci.kind == ckRepoIface && len(ci.targets) == 0 {
+			a.unknown(x.Pos(), "interface method %s has no implementation in the repository", ci.name)
+		}
+	case ckExternal:
+		if !shared || extReadOnly[ci.name] {
+			return
+		}
+		only, restricted := extWritesOnly[ci.name]
+		for _, b := range bound {
+			if restricted && only >= 0 && b.root != fmt.Sprintf("p%d", only) {
+				continue
 			}
+			a.writeThrough(b.t, "")
+			a.fi.extwrites[ci.name] = true
+		}
+	case ckLocalLit:
+		// body analysed in place, arguments bound in collectAliases
+	case ckDynamic:
+		a.fi.dyncalls[ci.name] = true
+		for _, b := range bound {
+			a.writeThrough(b.t, "")
+			a.fi.extwrites["callback "+ci.name] = true
 		}
 	}
 }
+
+// ---------------------------------------------------------------- channel skeletons
+
+// skeleton of a function body with respect to one channel-typed parameter
+func (a *analyser) chanSkeleton(body *ast.BlockStmt, ch types.Object) (deferred int, skel string) {
+	mentions := func(n ast.Node) bool {
+		found := false
+		if n == nil {
+			return false
+		}
+		ast.Inspect(n, func(m ast.Node) bool {
+			if id, ok := m.(*ast.Ident); ok && a.obj(id) == ch {
+				found = true
+			}
+			return !found
+		})
+		return found
+	}
+	isCh := func(e ast.Expr) bool {
+		for {
+			if p, ok := e.(*ast.ParenExpr); ok {
+				e = p.X
+				continue
+			}
+			break
+		}
+		id, ok := e.(*ast.Ident)
+		return ok && a.obj(id) == ch
+	}
+	isClose := func(e ast.Expr) bool {
+		c, ok := e.(*ast.CallExpr)
+		if !ok || len(c.Args) != 1 || !isCh(c.Args[0]) {
+			return false
+		}
+		id, ok := c.Fun.(*ast.Ident)
+		if !ok {
+			return false
+		}
+		_, isB := a.info.Uses[id].(*types.Builtin)
+		return isB && id.Name == "close"
+	}
+	isPanic := func(e ast.Expr) bool {
+		c, ok := e.(*ast.CallExpr)
+		if !ok {
+			return false
+		}
+		id, ok := c.Fun.(*ast.Ident)
+		if !ok {
+			return false
+		}
+		_, isB := a.info.Uses[id].(*types.Builtin)
+		return isB && id.Name == "panic"
+	}
+	// expression: only receives from ch, len(ch), cap(ch) are understood
+	var exprOps func(e ast.Node) (string, bool)
+	exprOps = func(e ast.Node) (string, bool) {
+		if e == nil || !mentions(e) {
+			return "CSkip", true
+		}
+		ok := true
+		recvs := 0
+		ast.Inspect(e, func(m ast.Node) bool {
+			if !ok {
+				return false
+			}
+			switch y := m.(type) {
+			case *ast.UnaryExpr:
+				if y.Op == token.ARROW && isCh(y.X) {
+					recvs++
+					return false
+				}
+			case *ast.CallExpr:
+				if id, isId := y.Fun.(*ast.Ident); isId && len(y.Args) == 1 && isCh(y.Args[0]) {
+					if _, isB := a.info.Uses[id].(*types.Builtin); isB && (id.Name == "len" || id.Name == "cap") {
+						return false
+					}
+				}
+			case *ast.FuncLit:
+				if mentions(y) {
+					ok = false
+				}
+				return false
+			case *ast.Ident:
+				if a.obj(y) == ch {
+					ok = false
+				}
+			}
+			return true
+		})
+		if !ok {
+			return "CUnknown", false
+		}
+		s := "CSkip"
+		for i := 0; i < recvs; i++ {
+			s = "(CSeq CRecv " + s + ")"
+		}
+		return s, true
+	}
+	seq := func(parts []string) string {
+		s := "CSkip"
+		for i := len(parts) - 1; i >= 0; i-- {
+			if parts[i] == "CSkip" {
+				continue
+			}
+			if s == "CSkip" {
+				s = parts[i]
+			} else {
+				s = "(CSeq " + parts[i] + " " + s + ")"
+			}
+		}
+		return s
+	}
+	choice := func(parts []string) string {
+		if len(parts) == 0 {
+			return "CSkip"
+		}
+		s := parts[len(parts)-1]
+		for i := len(parts) - 2; i >= 0; i-- {
+			s = "(CIf " + parts[i] + " " + s + ")"
+		}
+		return s
+	}
+	var stmt func(s ast.Stmt, top bool) string
+	block := func(l []ast.Stmt, top bool) string {
+		var parts []string
+		for _, s := range l {
+			parts = append(parts, stmt(s, top))
+		}
+		return seq(parts)
+	}
+	stmt = func(s ast.Stmt, top bool) string {
+		switch x := s.(type) {
+		case nil:
+			return "CSkip"
+		case *ast.EmptyStmt:
+			return "CSkip"
+		case *ast.ExprStmt:
+			if isClose(x.X) {
+				return "CClose"
+			}
+			if isPanic(x.X) {
+				e, _ := exprOps(x.X)
+				return seq([]string{e, "CPanic"})
+			}
+			e, _ := exprOps(x.X)
+			return e
+		case *ast.SendStmt:
+			if isCh(x.Chan) {
+				e, _ := exprOps(x.Value)
+				return seq([]string{e, "CSend"})
+			}
+			e1, _ := exprOps(x.Chan)
+			e2, _ := exprOps(x.Value)
+			return seq([]string{e1, e2})
+		case *ast.AssignStmt:
+			var parts []string
+			for _, l := range x.Lhs {
+				if isCh(l) {
+					return "CUnknown"
+				}
+				e, _ := exprOps(l)
+				parts = append(parts, e)
+			}
+			for _, r := range x.Rhs {
+				e, _ := exprOps(r)
+				parts = append(parts, e)
+			}
+			return seq(parts)
+		case *ast.IncDecStmt:
+			e, _ := exprOps(x.X)
+			return e
+		case *ast.DeclStmt:
+			e, _ := exprOps(x)
+			return e
+		case *ast.ReturnStmt:
+			var parts []string
+			for _, r := range x.Results {
+				e, _ := exprOps(r)
+				parts = append(parts, e)
+			}
+			return seq(append(parts, "CReturn"))
+		case *ast.BranchStmt:
+			if x.Label != nil {
+				return "CUnknown"
+			}
+			switch x.Tok {
+			case token.BREAK:
+				return "CBreak"
+			case token.CONTINUE:
+				return "CContinue"
+			}
+			return "CUnknown" // goto, fallthrough
+		case *ast.BlockStmt:
+			return block(x.List, false)
+		case *ast.IfStmt:
+			init := stmt(x.Init, false)
+			c, _ := exprOps(x.Cond)
+			th := block(x.Body.List, false)
+			el := "CSkip"
+			if x.Else != nil {
+				el = stmt(x.Else, false)
+			}
+			return seq([]string{init, c, "(CIf " + th + " " + el + ")"})
+		case *ast.ForStmt:
+			init := stmt(x.Init, false)
+			c, _ := exprOps(x.Cond)
+			if x.Post != nil && mentions(x.Post) {
+				return "CUnknown"
+			}
+			return seq([]string{init, "(CLoop " + seq([]string{c, block(x.Body.List, false)}) + ")"})
+		case *ast.RangeStmt:
+			if mentions(x.Key) || mentions(x.Value) {
+				return "CUnknown"
+			}
+			if isCh(x.X) {
+				return "(CLoop " + seq([]string{"CRecv", block(x.Body.List, false)}) + ")"
+			}
+			e, _ := exprOps(x.X)
+			return seq([]string{e, "(CLoop " + block(x.Body.List, false) + ")"})
+		case *ast.SwitchStmt:
+			init := stmt(x.Init, false)
+			tag, _ := exprOps(x.Tag)
+			var cl []string
+			hasDefault := false
+			for _, c := range x.Body.List {
+				cc := c.(*ast.CaseClause)
+				if cc.List == nil {
+					hasDefault = true
+				}
+				var parts []string
+				for _, e := range cc.List {
+					s, _ := exprOps(e)
+					parts = append(parts, s)
+				}
+				parts = append(parts, block(cc.Body, false))
+				cl = append(cl, seq(parts))
+			}
+			if !hasDefault {
+				cl = append(cl, "CSkip")
+			}
+			return seq([]string{init, tag, "(CBlock " + choice(cl) + ")"})
+		case *ast.TypeSwitchStmt:
+			if mentions(x.Init) || mentions(x.Assign) {
+				return "CUnknown"
+			}
+			var cl []string
+			for _, c := range x.Body.List {
+				cl = append(cl, block(c.(*ast.CaseClause).Body, false))
+			}
+			cl = append(cl, "CSkip")
+			return "(CBlock " + choice(cl) + ")"
+		case *ast.SelectStmt:
+			var cl []string
+			for _, c := range x.Body.List {
+				cc := c.(*ast.CommClause)
+				comm := "CSkip"
+				if cc.Comm != nil {
+					comm = stmt(cc.Comm, false)
+				}
+				cl = append(cl, seq([]string{comm, block(cc.Body, false)}))
+			}
+			return "(CBlock " + choice(cl) + ")"
+		case *ast.DeferStmt:
+			if isClose(x.Call) {
+				if top {
+					deferred++
+					return "CSkip"
+				}
+				return "CUnknown"
+			}
+			if mentions(x.Call) {
+				return "CUnknown"
+			}
+			return "CSkip"
+		case *ast.GoStmt:
+			if mentions(x.Call) {
+				return "CUnknown"
+			}
+			return "CSkip"
+		case *ast.LabeledStmt:
+			return "CUnknown"
+		}
+		return "CUnknown"
+	}
+	// top-level statements; `defer close(ch)` is understood only there (it then runs at every exit)
+	var parts []string
+	for _, s := range body.List {
+		parts = append(parts, stmt(s, true))
+	}
+	return deferred, seq(parts)
+}
+
+// ---------------------------------------------------------------- output
 
 func coqStr(s string) string { return "\"" + strings.ReplaceAll(s, "\"", "\"\"") + "\"" }
 
@@ -613,9 +1470,35 @@ func coqList(m map[string]bool) string {
 	return "[" + strings.Join(ks, "; ") + "]"
 }
 
+func coqTriples(m map[[3]string]bool) string {
+	var ks [][3]string
+	for k := range m {
+		ks = append(ks, k)
+	}
+	sort.Slice(ks, func(i, j int) bool {
+		for c := 0; c < 3; c++ {
+			if ks[i][c] != ks[j][c] {
+				return ks[i][c] < ks[j][c]
+			}
+		}
+		return false
+	})
+	out := make([]string, len(ks))
+	for i, k := range ks {
+		out[i] = "(" + coqStr(k[0]) + ", " + coqStr(k[1]) + ", " + coqStr(k[2]) + ")"
+	}
+	return "[" + strings.Join(out, "; ") + "]"
+}
+
+const effectsPrelude = "From Coq Require Import List String.\nFrom Mamba Require Import Effects.Skel.\nImport ListNotations.\nOpen Scope string_scope.\n\n"
+
+const effectsRecord = "Record finfo := { fname : string; fexported : bool; gwrites : list string; swrites : list string; calls : list string; scalls : list string; gostmts : nat; chanops : nat; dwrites : list string; argflow : list (string * string * string); extwrites : list string; dyncalls : list string; unknown : list string }.\n\n"
+
 func effectsTranslator(repo string) (map[string]string, error) {
 	failed := func(err error) (map[string]string, error) {
-		return map[string]string{"Effects.v": "(* generated by tools/gotrans (effects): FAILED *)\nFrom Coq Require Import List String.\nImport ListNotations.\nOpen Scope string_scope.\nDefinition translation_failed_effects : bool := true.\nRecord finfo := { fname : string; fexported : bool; gwrites : list string; swrites : list string; calls : list string; scalls : list string; gostmts : nat; chanops : nat }.\nDefinition funcs : list finfo := [].\nDefinition globals : list string := [].\n"}, err
+		return map[string]string{"Effects.v": "(* generated by tools/gotrans (effects): FAILED: " + strings.ReplaceAll(strings.ReplaceAll(err.Error(), "*)", "* )"), "(*", "( *") + " *)\n" + effectsPrelude +
+			"Definition translation_failed_effects : bool := true.\n\n" + effectsRecord +
+			"Definition globals : list string := [].\n\nDefinition funcs : list finfo := [].\n\nDefinition chanskels : list (string * string * nat * cstmt) := [].\n"}, err
 	}
 	mod := modulePath(repo)
 	if mod == "" {
@@ -630,7 +1513,7 @@ func effectsTranslator(repo string) (map[string]string, error) {
 			return nil
 		}
 		if fi.IsDir() {
-			if strings.HasPrefix(fi.Name(), ".") && p != repo {
+			if (strings.HasPrefix(fi.Name(), ".") || fi.Name() == "testdata" || fi.Name() == "vendor") && p != repo {
 				return filepath.SkipDir
 			}
 			ents, _ := os.ReadDir(p)
@@ -649,25 +1532,39 @@ func effectsTranslator(repo string) (map[string]string, error) {
 		return nil
 	})
 	sort.Strings(pkgPaths)
-	var all []*finfo
-	var methodsByName map[string][]string
-	var globals []string
 	for _, path := range pkgPaths {
 		if pkg, err := ri.load(path); err != nil || pkg == nil {
 			return failed(fmt.Errorf("type-checking %s: %v", path, err))
 		}
 	}
-	retAlias = map[string]bool{}
-	for iter := 0; iter < 20; iter++ {
+	if len(ri.errs) > 0 {
+		return failed(fmt.Errorf("the repository does not type-check cleanly or has non-Go sources: %s", strings.Join(ri.errs[:min(len(ri.errs), 3)], "; ")))
+	}
+	// all methods of the repository by name (targets of interface calls)
+	impl := map[string][]*types.Func{}
+	for _, path := range pkgPaths {
+		info := ri.infos[path]
+		for _, f := range ri.files[path] {
+			for _, d := range f.Decls {
+				if fd, ok := d.(*ast.FuncDecl); ok && fd.Recv != nil {
+					if fn, ok := info.Defs[fd.Name].(*types.Func); ok {
+						impl[fn.Name()] = append(impl[fn.Name()], fn)
+					}
+				}
+			}
+		}
+	}
+	var all []*finfo
+	var globals []string
+	var skels []string
+	retRoots = map[string]map[string]bool{}
+	for iter := 0; iter < 30; iter++ {
 		changed := false
 		all = nil
 		globals = nil
-		methodsByName = map[string][]string{}
+		skels = nil
 		for _, path := range pkgPaths {
-			pkg, err := ri.load(path)
-			if err != nil || pkg == nil {
-				return failed(fmt.Errorf("type-checking %s: %v", path, err))
-			}
+			pkg := ri.pkgs[path]
 			info := ri.infos[path]
 			for _, name := range pkg.Scope().Names() {
 				if v, ok := pkg.Scope().Lookup(name).(*types.Var); ok {
@@ -675,61 +1572,118 @@ func effectsTranslator(repo string) (map[string]string, error) {
 				}
 			}
 			for _, f := range ri.files[path] {
+				fileUnknown := ""
+				for _, imp := range f.Imports {
+					switch strings.Trim(imp.Path.Value, "\"") {
+					case "C":
+						fileUnknown = "cgo in " + filepath.Base(fset.Position(f.Pos()).Filename)
+					}
+				}
+				for _, cg := range f.Comments {
+					for _, c := range cg.List {
+						if strings.HasPrefix(c.Text, "//go:linkname") {
+							fileUnknown = "go:linkname in " + filepath.Base(fset.Position(f.Pos()).Filename)
+						}
+					}
+				}
 				for _, d := range f.Decls {
 					fd, ok := d.(*ast.FuncDecl)
-					if !ok || fd.Body == nil {
+					if !ok {
 						continue
 					}
-					fn := info.Defs[fd.Name].(*types.Func)
-					fi := &finfo{key: funcKey(fn), exported: fn.Exported(), gwrites: map[string]bool{}, swrites: map[string]bool{}, calls: map[string]bool{}, scalls: map[string]bool{}, ifcalls: map[string]bool{}}
-					a := &analyser{info: info, pkg: pkg, mod: mod, taint: map[types.Object]types.Type{}, holder: map[types.Object]bool{}, fi: fi}
+					fn, ok := info.Defs[fd.Name].(*types.Func)
+					if !ok {
+						continue
+					}
+					fi := newFinfo(funcKey(fn), fn.Exported())
+					all = append(all, fi)
+					if fileUnknown != "" {
+						fi.unknown[fileUnknown] = true
+					}
+					if fd.Body == nil {
+						fi.unknown["function without a body"] = true
+						continue
+					}
 					sig := fn.Type().(*types.Signature)
+					if sig.TypeParams().Len() > 0 || sig.RecvTypeParams().Len() > 0 {
+						fi.unknown["generic function"] = true
+					}
+					a := &analyser{info: info, pkg: pkg, mod: mod, fset: fset, taint: map[types.Object]*tinfo{}, fi: fi, ret: map[string]bool{},
+						litVar: map[types.Object]*ast.FuncLit{}, litEsc: map[types.Object]bool{}, litOfVar: map[*ast.FuncLit]types.Object{},
+						impl: impl, callFun: map[ast.Expr]bool{}}
 					if r := sig.Recv(); r != nil {
-						a.taint[r] = r.Type()
-						methodsByName[fn.Name()] = append(methodsByName[fn.Name()], fi.key)
+						a.taint[r] = &tinfo{roots: map[string]types.Type{"recv": r.Type()}, own: 0}
 					}
 					for i := 0; i < sig.Params().Len(); i++ {
 						p := sig.Params().At(i)
 						if isRefType(p.Type()) {
-							a.taint[p] = p.Type()
+							a.taint[p] = &tinfo{roots: map[string]types.Type{fmt.Sprintf("p%d", i): p.Type()}, own: 0}
 						}
 					}
-					// named results and parameters of nested function literals are locals
+					for i := 0; i < sig.Results().Len(); i++ {
+						if r := sig.Results().At(i); r.Name() != "" && r.Name() != "_" {
+							a.results = append(a.results, r)
+						}
+					}
+					a.prepass(fd.Body)
 					a.walk(fd.Body)
-					if old, ok := retAlias[fi.key]; !ok || (a.rets && !old) {
-						if !ok || a.rets != old {
+					old := retRoots[fi.key]
+					if old == nil {
+						old = map[string]bool{}
+						retRoots[fi.key] = old
+					}
+					for k := range a.ret {
+						if !old[k] {
+							old[k] = true
 							changed = true
 						}
-						retAlias[fi.key] = a.rets || old
 					}
-					all = append(all, fi)
+					for i := 0; i < sig.Params().Len(); i++ {
+						p := sig.Params().At(i)
+						if _, isChan := p.Type().Underlying().(*types.Chan); isChan {
+							dn, sk := a.chanSkeleton(fd.Body, p)
+							skels = append(skels, fmt.Sprintf("  (%s, %s, %d, %s)", coqStr(fi.key), coqStr(fmt.Sprintf("p%d", i)), dn, sk))
+						}
+					}
 				}
 			}
 		}
 		if !changed {
 			break
 		}
-	}
-	for _, fi := range all {
-		for m := range fi.ifcalls {
-			if strings.HasPrefix(m, "shared:") {
-				for _, k := range methodsByName[strings.TrimPrefix(m, "shared:")] {
-					fi.scalls[k] = true
-				}
-				continue
-			}
-			for _, k := range methodsByName[m] {
-				fi.calls[k] = true
-			}
+		if iter == 29 {
+			return failed(fmt.Errorf("alias summary of results did not reach a fixpoint"))
 		}
 	}
-	sort.Slice(all, func(i, j int) bool { return all[i].key < all[j].key })
+	sort.SliceStable(all, func(i, j int) bool { return all[i].key < all[j].key })
+	// several functions with one key (init, methods of same-named types in one package cannot occur): merge conservatively
+	var merged []*finfo
+	for _, fi := range all {
+		if n := len(merged); n > 0 && merged[n-1].key == fi.key {
+			m := merged[n-1]
+			for _, pr := range []struct{ dst, src map[string]bool }{{m.gwrites, fi.gwrites}, {m.swrites, fi.swrites}, {m.calls, fi.calls}, {m.scalls, fi.scalls},
+				{m.dwrites, fi.dwrites}, {m.extwrites, fi.extwrites}, {m.dyncalls, fi.dyncalls}, {m.unknown, fi.unknown}} {
+				for k := range pr.src {
+					pr.dst[k] = true
+				}
+			}
+			for k := range fi.argflow {
+				m.argflow[k] = true
+			}
+			m.gostmts += fi.gostmts
+			m.chanops += fi.chanops
+			continue
+		}
+		merged = append(merged, fi)
+	}
+	all = merged
 	sort.Strings(globals)
+	sort.Strings(skels)
 	var sb strings.Builder
 	sb.WriteString("(* generated by tools/gotrans (effects) from the repository's current source -- do not edit *)\n")
-	sb.WriteString("From Coq Require Import List String.\nImport ListNotations.\nOpen Scope string_scope.\n\n")
+	sb.WriteString(effectsPrelude)
 	sb.WriteString("Definition translation_failed_effects : bool := false.\n\n")
-	sb.WriteString("Record finfo := { fname : string; fexported : bool; gwrites : list string; swrites : list string; calls : list string; scalls : list string; gostmts : nat; chanops : nat }.\n\n")
+	sb.WriteString(effectsRecord)
 	gs := make([]string, len(globals))
 	for i, g := range globals {
 		gs[i] = coqStr(g)
@@ -745,9 +1699,124 @@ func effectsTranslator(repo string) (map[string]string, error) {
 		if fi.exported {
 			exp = "true"
 		}
-		fmt.Fprintf(&sb, "  {| fname := %s; fexported := %s; gwrites := %s; swrites := %s; calls := %s; scalls := %s; gostmts := %d; chanops := %d |}%s\n",
-			coqStr(fi.key), exp, coqList(fi.gwrites), coqList(fi.swrites), coqList(fi.calls), coqList(fi.scalls), fi.gostmts, fi.chanops, sep)
+		fmt.Fprintf(&sb, "  {| fname := %s; fexported := %s; gwrites := %s; swrites := %s; calls := %s; scalls := %s; gostmts := %d; chanops := %d;\n     dwrites := %s; argflow := %s; extwrites := %s; dyncalls := %s; unknown := %s |}%s\n",
+			coqStr(fi.key), exp, coqList(fi.gwrites), coqList(fi.swrites), coqList(fi.calls), coqList(fi.scalls), fi.gostmts, fi.chanops,
+			coqList(fi.dwrites), coqTriples(fi.argflow), coqList(fi.extwrites), coqList(fi.dyncalls), coqList(fi.unknown), sep)
 	}
-	sb.WriteString("].\n")
+	sb.WriteString("].\n\n")
+	sb.WriteString("(* (function, channel parameter, number of top-level `defer close`, skeleton of the body) *)\n")
+	sb.WriteString("Definition chanskels : list (string * string * nat * cstmt) := [\n" + strings.Join(skels, ";\n") + "\n].\n")
 	return map[string]string{"Effects.v": sb.String()}, nil
+}
+
+// prepass finds local variables bound only to function literals, the expressions in call
+// position, and taints the parameters of literals that can be called by someone else.
+func (a *analyser) prepass(body ast.Node) {
+	other := map[types.Object]bool{}
+	bind := func(lhs, rhs ast.Expr) {
+		id, ok := lhs.(*ast.Ident)
+		if !ok {
+			return
+		}
+		obj := a.obj(id)
+		if obj == nil {
+			return
+		}
+		if _, isSig := obj.Type().Underlying().(*types.Signature); !isSig {
+			return
+		}
+		if lit, ok := rhs.(*ast.FuncLit); ok {
+			if prev, had := a.litVar[obj]; had && prev != lit {
+				other[obj] = true // two different literals: treat as dynamic
+			}
+			a.litVar[obj] = lit
+			a.litOfVar[lit] = obj
+		} else {
+			other[obj] = true
+		}
+	}
+	ast.Inspect(body, func(n ast.Node) bool {
+		switch x := n.(type) {
+		case *ast.CallExpr:
+			f := x.Fun
+			for {
+				if p, ok := f.(*ast.ParenExpr); ok {
+					f = p.X
+					continue
+				}
+				break
+			}
+			a.callFun[f] = true
+			a.callFun[x.Fun] = true
+		case *ast.AssignStmt:
+			if len(x.Lhs) == len(x.Rhs) {
+				for i := range x.Lhs {
+					bind(x.Lhs[i], x.Rhs[i])
+				}
+			} else {
+				for i := range x.Lhs {
+					bind(x.Lhs[i], nil)
+				}
+			}
+		case *ast.ValueSpec:
+			for i, nm := range x.Names {
+				if i < len(x.Values) {
+					bind(nm, x.Values[i])
+				}
+			}
+		}
+		return true
+	})
+	for obj := range other {
+		delete(a.litVar, obj)
+	}
+	// does a literal-bound variable escape (used other than by calling it)?
+	ast.Inspect(body, func(n ast.Node) bool {
+		if id, ok := n.(*ast.Ident); ok {
+			if obj := a.info.Uses[id]; obj != nil {
+				if _, isLit := a.litVar[obj]; isLit && !a.callFun[id] {
+					a.litEsc[obj] = true
+				}
+			}
+		}
+		return true
+	})
+	called := map[*ast.FuncLit]bool{}
+	ast.Inspect(body, func(n ast.Node) bool {
+		if c, ok := n.(*ast.CallExpr); ok {
+			f := c.Fun
+			for {
+				if p, ok := f.(*ast.ParenExpr); ok {
+					f = p.X
+					continue
+				}
+				break
+			}
+			if lit, ok := f.(*ast.FuncLit); ok {
+				called[lit] = true
+			}
+		}
+		return true
+	})
+	ast.Inspect(body, func(n ast.Node) bool {
+		lit, ok := n.(*ast.FuncLit)
+		if !ok {
+			return true
+		}
+		local := called[lit]
+		if obj, bound := a.litOfVar[lit]; bound && a.litVar[obj] == lit && !a.litEsc[obj] {
+			local = true
+		}
+		if local {
+			return true
+		}
+		for _, fld := range lit.Type.Params.List {
+			for _, nm := range fld.Names {
+				if obj := a.info.Defs[nm]; obj != nil && isRefType(obj.Type()) {
+					a.taint[obj] = &tinfo{roots: map[string]types.Type{"lit": obj.Type()}, own: 0}
+				}
+			}
+		}
+		return true
+	})
 }
